@@ -236,7 +236,7 @@ def model_eval(cases):
 MODEL_CALL = {
     # context -> (flags, swapped?)  : which eq_complex call the compiler makes
     "assign": ("fl_assign", False), "argument": ("fl_argument", False), "argument2": ("fl_argument", False), "or": ("fl_or", False),
-    "rebind": ("classless", False), "return": ("fl_return", False), "reassign": ("fl_reassign", True),
+    "rebind": ("classless", False), "return": ("fl_return", False), "reassign": ("fl_reassign", False),       # reassignment.rs: expected_ty.eq_complex(value_ty, lhs_unwrap(false))
 }
 
 
